@@ -26,7 +26,8 @@ RULE = ('Paired sessions: world A and world B share the configuration and all ma
         'end 0-9 days after T (subject to the same rewriting). A is run twice '
         'first; configurations where A != A\' are skipped and counted (that is C18\'s subject). Non-trivial = B '
         'differs from A after T, A has >= 1 fill at or before T, >= 1 rebalance after T, and T is not the last day.'
-        " Round-5 reach: alpha kinds `cycle` (rotating weight vectors) and `hist` (weights from the data source's public range query up to the rebalance instant); rewrite mode `wild` (the whole future trades at x0.01 .. x100).")
+        " Round-5 reach: alpha kinds `cycle` (rotating weight vectors) and `hist` (weights from the data source's public range query up to the rebalance instant); rewrite mode `wild` (the whole future trades at x0.01 .. x100)."
+        " Round-10 reach: market shapes `opens_only_until_after_the_cut` (a symbol whose bars carry no closing prints until a few days past T, adjustment factor 0.5-1) and `suspended_across_the_cut` (no rows for 0-3 days either side of T) in 3 of 8 cases; a quarter of the non-weekly sessions carry a meaningless weekday keyword.")
 ASSUMPTIONS = [
     'well-formed CSV files; header-only files are not in the domain',
     'sessions of 5-60 days, <= 5 symbols, signal lookbacks <= 9',
@@ -246,6 +247,24 @@ def cases(draw):
             if all(mk.values()) and prev >= d0:
                 cut = prev
                 labels.append('holiday_on_a_month_end_cut_the_day_before')
+    shape = draw(st.sampled_from([None] * 5 + ['open_only_lead', 'suspended_across_cut', 'suspended_across_cut']))
+    if shape:
+        s = draw(st.sampled_from(sorted(mk)))
+        if shape == 'open_only_lead':
+            # a symbol whose early bars, until a few days past the cut, carry an open but no closing prints yet
+            stop = cut + D.timedelta(days=draw(st.integers(0, 4)))
+            k = draw(st.sampled_from([0.5, 0.8, 1.0]))
+            mk[s] = [r[:4] + [None, None] if D.date(r[0], r[1], r[2]) <= stop else
+                     r[:5] + [None if r[4] is None else round(r[4] * k, 4)] for r in mk[s]]
+            labels.append('opens_only_until_after_the_cut')
+        else:
+            # a symbol suspended for a few days around the cut: no rows at all, trading resumes afterwards
+            lo = cut - D.timedelta(days=draw(st.integers(0, 3)))
+            hi = cut + D.timedelta(days=draw(st.integers(0, 3)))
+            rows = [r for r in mk[s] if not lo <= D.date(r[0], r[1], r[2]) <= hi]
+            if rows and any(D.date(r[0], r[1], r[2]) < lo for r in rows):
+                mk[s] = rows
+                labels.append('suspended_across_the_cut')
     return {'cfg': cfg, 'market': mk, 'cut': [cut.year, cut.month, cut.day],
             'mode': draw(st.sampled_from(['rewrite', 'rewrite', 'delete', 'mix', 'wild', 'blank'])), 'seed': draw(st.integers(0, 10 ** 6)),
             'labels': labels + lab, 'reuse_handler': draw(st.sampled_from([False, False, True])),
